@@ -269,3 +269,22 @@ def c13g(ctx):
     sets = g2.find_stmts(lambda s: isinstance(s, ast.Assign) and unparse(s.targets[0]) == 'tile.timestamp')
     ok = bool(sets) and all(is_call(g2.stmt[n].value, 'time.time') for n in sets)
     ctx.check(ok, 'tile_buffer:timestamp-is-now', 'a tile without timestamp gets the current time when it is stored', tb)
+
+
+@rule('C13.h', floor=1)
+def c13h(ctx):
+    """a refresh that fails does not destroy the old tile (file cache): the new image is decoded (`as_image()`, for the single-colour
+    test) before anything of the old tile is removed -- no path leads from an unlink / remove of the tile location to the decoding
+    step, so an undecodable or truncated upstream answer raises while the old tile (also a link to a single-colour tile) is still
+    in place"""
+    F = 'mapproxy/cache/file.py:FileCache.'
+    fn = ctx.repo.with_inlined(ctx.fn(F + 'store_tile'), ['_store', '_store_single_color_tile'])
+    g = fn.cfg
+    rms = g.find(lambda x: is_call(x, 'os.unlink', 'os.remove'))
+    decs = g.find(lambda x: isinstance(x, ast.Call) and isinstance(x.func, ast.Attribute) and x.func.attr == 'as_image')
+    if not rms:
+        raise Undecided('FileCache.store_tile: no unlink found (helpers inlined)')
+    bad = [(x, y) for n, x in rms for m, y in decs if n == m or g.reaches_avoiding(n, m)]
+    ctx.check(not bad, 'FileCache.store_tile:decode-before-unlink', 'the new image is decoded before the old tile / link is removed (%d unlink sites, %d decoding '
+              'sites)' % (len(rms), len(decs)), fn, fail='the old tile (link) is removed before the new image is decoded: a damaged upstream answer '
+              'leaves the cache without the tile it had')
